@@ -3,6 +3,15 @@
 import json, sys
 pid = sys.argv[1]
 n = sys.argv[2] if len(sys.argv) > 2 else "3"
+start = int(sys.argv[3]) if len(sys.argv) > 3 else 1
+import glob
+prev = []
+for f in sorted(glob.glob(f'/verif/seeded/{pid}-*/meta.json')):
+    try: prev.append(json.load(open(f)).get('title',''))
+    except Exception: pass
+excl = ""
+if prev:
+    excl = "\n\nALREADY TAKEN (other engineers produced these earlier; yours must be DIFFERENT mechanisms, preferably in different functions/files and different clauses of the property):\n" + "\n".join("  - "+t for t in prev if t) + f"\nNumber your changes k = {start}..{start+int(n)-1} (so the output directories are /tmp/seed-out/{pid}/{start}/ ...)."
 p = [json.loads(l) for l in open('/verif/properties.jsonl') if json.loads(l)['id'] == pid][0]
 print(f"""You are a careful Rust engineer doing mutation seeding for the crate gimli (a DWARF reader/writer). A pinned checkout is at /repo (git repository, branch main). You must NOT edit /repo itself and you must NOT read anything under /verif (it contains an independent verification framework; your work must be independent of it). Everything is offline: always pass --offline to cargo.
 
@@ -20,7 +29,7 @@ Each change must come with a demonstration: a self-contained Rust integration te
 HOW TO WORK:
 - Create your own scratch worktree: `git -C /repo worktree add --detach /tmp/seed-{pid} HEAD` and work only there. Use `CARGO_TARGET_DIR=/tmp/seed-{pid}/target`.
 - Run the full existing suite in the worktree with: `cd /tmp/seed-{pid} && cargo test --workspace --no-fail-fast --offline 2>&1 | tail -40` (it takes a few minutes; the machine is shared and busy, be patient; do not run more than one cargo command at a time). All tests must pass with your change applied (check the summary lines of every test binary).
-- For each change k = 1..{n}: start from a clean worktree (`git checkout -- . && git clean -fdq -e target`), apply the change, run the suite, write the demonstration test as `tests/seed_demo.rs`, run it with the change (`cargo test --offline --test seed_demo` must FAIL) and without it (revert only the src change; must PASS). Then save into `/tmp/seed-out/{pid}/<k>/`: `patch.diff` (output of `git diff -- src` with only the source change), `seed_demo.rs` (the demonstration), and `meta.json` with keys: property ("{pid}"), title (one line), what_it_breaks (which clause of the property and why), needs_to_manifest (the specific input / sequence / configuration needed), files_touched, suite_result (the pass/fail counts you observed with the change applied), demo_with_change ("fails: <assertion message>"), demo_without_change ("passes").
+- For each change (k numbered as stated at the end of this prompt if a numbering is given there, else k = 1..{n}): start from a clean worktree (`git checkout -- . && git clean -fdq -e target`), apply the change, run the suite, write the demonstration test as `tests/seed_demo.rs`, run it with the change (`cargo test --offline --test seed_demo` must FAIL) and without it (revert only the src change; must PASS). Then save into `/tmp/seed-out/{pid}/<k>/`: `patch.diff` (output of `git diff -- src` with only the source change), `seed_demo.rs` (the demonstration), and `meta.json` with keys: property ("{pid}"), title (one line), what_it_breaks (which clause of the property and why), needs_to_manifest (the specific input / sequence / configuration needed), files_touched, suite_result (the pass/fail counts you observed with the change applied), demo_with_change ("fails: <assertion message>"), demo_without_change ("passes").
 - When completely done, remove the worktree and its build output: `git -C /repo worktree remove --force /tmp/seed-{pid}`.
 
-Be rigorous: do not claim a result you did not observe. If a candidate change turns out to fail an existing test or cannot be demonstrated, discard it and find another. Your final message: for each saved change, one paragraph (title, mechanism, what is needed to manifest, suite result, demo result).""")
+Be rigorous: do not claim a result you did not observe. If a candidate change turns out to fail an existing test or cannot be demonstrated, discard it and find another. Your final message: for each saved change, one paragraph (title, mechanism, what is needed to manifest, suite result, demo result).""" + excl)
